@@ -71,7 +71,7 @@ fn profile_for(prop: &str, variant: u64) -> Profile {
             p.w_up = 1;
             p.w_down = 1;
             p.w_pool_line = 1;
-            p.sets = vec![SetKind::FixA, SetKind::FixG, SetKind::FixG, SetKind::Raw];
+            p.sets = vec![SetKind::FixA, SetKind::FixG, SetKind::FixG, SetKind::Raw, SetKind::FixU, SetKind::FixU];
             p.cmd_sizes = vec![1, 2, 3, 4, 5, 6, 7, 8, 9, 10, 13, 16, 32];
             p.max_keys = 40;
         }
